@@ -26,7 +26,8 @@
          chk_C05 ifs h wakes (map obs_of (run_history ifs h)) = true ). *)
 From Coq Require Import List NArith Bool.
 From Mdns Require Import Res Bytes Rec Wire Txt Cache Browser C03Spec BrowserSpec BrowserKnown CacheProofs
-  CacheInvProofs BrowserProofs BrowserStepProofs SpecTrackProofs C05SafetyProofs BrowserExamples.
+  CacheInvProofs BrowserProofs BrowserStepProofs SpecTrackProofs C05SafetyProofs AouCasesProofs C04OrderProofs
+  C05AgainProofs BrowserExamples.
 Import ListNotations.
 Open Scope N_scope.
 
@@ -147,10 +148,10 @@ Proof. exact spec_tracks_model. Qed.
    _partial: NOT proved at history level are F05_dead (timeliness: an instance reported resolved
    is weakly alive at the end of every iteration; needs an invariant tying the checker's "up"
    list to the model's `resolved` set and the order of events inside an iteration; further
-   classes to exclude: C05-expiry-hidden-by-expiring-ptr and stop_browse of a second PTR name
-   of an instance), F05_again (needs: liveness only decreases without a delivery of a record of
-   the instance, fresh channel numbers) and F05_wake (the model does not compute timers; the
-   wake-ups are an input of the checker).  They stay monitor-checked on every generated history. *)
+   classes to exclude: C05-expiry-hidden-by-expiring-ptr, and stop_browse of a second PTR name
+   of an instance - see the note at C05_no_resolved_again_partial) and F05_wake (the model does
+   not compute timers; the wake-ups are an input of the checker).  They stay monitor-checked on
+   every generated history.  F05_again is proved below (round 5). *)
 Theorem C05_removed_only_when_true_partial : forall ifs h wakes,
   wf_history h = true -> safe_class ifs h = true ->
   forall f, In f (viol_C05 ifs h wakes (map obs_of (run_history ifs h))) -> is_alive_fail f = false.
@@ -175,6 +176,87 @@ Example C05_safe_class_example :
   /\ existsb (existsb is_removed_evt) (run_history ex_ifs ex_hist) = true.
 Proof. exact safe_example. Qed.
 
+(* C05, safety, second half (round 5).  Full statement:
+       forall ifs h wakes, wf_history h = true ->
+         forall f, In f (viol_C05 ifs h wakes (map obs_of (run_history ifs h))) -> is_again_fail f = false
+   i.e. the checker never reports F05_again: "ServiceResolved of an instance on a channel after
+   ServiceRemoved of that instance on that channel (iteration j), with no delivery in iterations
+   j.. of a record that concerns the instance (PTR pointing to it, its SRV / TXT, an address
+   record of the host it is resolved to)".  Proved for the histories of safe_class (outside the
+   classes known_ptr_variant and known_srv_targets - inside them the statement is neither proved
+   nor refuted; no generated history of those classes fails F05_again) and with the
+   well-formedness condition fresh_channels: every browse call uses a channel number greater
+   than all used before (a channel number names ONE browse call; the history builders number
+   them 1, 2, 3, ...; the driver rejects a history that violates it).
+   The invariant (DI, Proofs/C05AgainProofs.v): for every entry (channel, instance, j) of the
+   checker's dead list and the type browsed on that channel, either a relevant delivery with
+   index >= j is in the log or the instance is not strongly alive in the model's cache.  It is
+   kept by: the cache only shrinking (C05_liveness_decreases_with_cache), time going by
+   (C05_liveness_decreases_with_time), deliveries that do not concern the instance
+   (C05_other_deliveries_keep_dead); what is reported resolved is strongly alive
+   (C05_resolved_is_strongly_alive); what is reported removed is not (round 4).
+   Note on timeliness (F05_dead), decided in round 5: stop_browse(ty) removes the PTR, SRV, TXT
+   records of every instance the PTR records of ty point to (remove_service_type), also when
+   the instance is still browsed under a second PTR name (subtype): that instance then stays
+   "resolved" on the other channel with no SRV in the cache; no ServiceRemoved comes, and when
+   the service then departs silently this is reported only when the PTR runs out (4500 s) instead
+   of the SRV (120 s) - run on the real daemon, which agrees.  Recorded as the finding
+   C05-stop-browse-drops-shared-records (executable class known_stop_second_name, witness
+   C05_known_stop_second_name_witness); a history-level timeliness statement has to exclude this
+   class besides C05-expiry-hidden-by-expiring-ptr. *)
+Theorem C05_no_resolved_again_partial : forall ifs h wakes,
+  wf_history h = true -> safe_class ifs h = true -> fresh_channels h = true ->
+  forall f, In f (viol_C05 ifs h wakes (map obs_of (run_history ifs h))) -> is_again_fail f = false.
+Proof. exact no_resolved_again. Qed.
+
+(* the same for one iteration from any state: good5 = cache invariant + DI + channel bounds for
+   the dead list D; step5 = no ServiceResolved of the iteration trips the check (again_ok) and
+   good5 holds again for the dead list after the iteration's events *)
+Theorem C05_iteration_no_resolved_again : forall Lf,
+  known_ptr_variant Lf = false -> known_srv_targets Lf = false -> ptr_names_ok Lf = true ->
+  forall k log now cur, (forall x, In x cur -> In (k, x) log) ->
+  forall ifs prev s it D m m',
+  i_now it = now -> iter_dlvs ifs it = cur -> incl cur Lf ->
+  good5 Lf k log now prev s D m -> calls_fresh m (i_calls it) = Some m' ->
+  step5 Lf k log now D (snd (iterate ifs s it)) (prev ++ cur) (fst (iterate ifs s it)) m'.
+Proof. exact iterate_again. Qed.
+
+(* liveness only decreases without a delivery of a record of the instance *)
+Theorem C05_liveness_decreases_with_cache : forall L c c' now ty inst,
+  Inv L c -> shrinks_to c c' -> alive_strong c' now ty inst = true -> alive_strong c now ty inst = true.
+Proof. exact alive_shrinks. Qed.
+
+Theorem C05_liveness_decreases_with_time : forall c now now' ty inst,
+  now <= now' -> alive_strong c now' ty inst = true -> alive_strong c now ty inst = true.
+Proof. exact alive_later. Qed.
+
+Theorem C05_other_deliveries_keep_dead : forall Lf L c now ifx r fu now' ty inst,
+  Inv L c -> incl L Lf -> relevantL Lf inst (mkDlv now ifx r) = false ->
+  alive_strong (fst (add_or_update c now ifx r fu)) now' ty inst = true ->
+  alive_strong c now' ty inst = true.
+Proof. exact aou_frame. Qed.
+
+(* what resolve_service_from_cache finds valid for a PTR record with more than a second left is
+   strongly alive, and its host is the host of a cached SRV record of the instance *)
+Theorem C05_resolved_is_strongly_alive : forall c now ty inst pb p,
+  bm_get ty (c_ptr c) = Some pb -> In p pb -> alias_of (e_rr p) = inst -> expires_soon p now = false ->
+  is_valid (resolve_from_cache c now ty inst) = true ->
+  alive_strong c now ty inst = true
+  /\ exists sb e, bm_get inst (c_srv c) = Some sb /\ In e sb
+                  /\ srv_host e = rs_host (resolve_from_cache c now ty inst)
+                  /\ rs_host (resolve_from_cache c now ty inst) <> [].
+Proof. exact valid_alive. Qed.
+
+(* non-vacuity: announcement, goodbye, announcement again - ServiceRemoved, then ServiceResolved
+   again on the same channel (a relevant delivery in between); stop and browse on a new channel *)
+Example C05_no_resolved_again_example :
+  wf_history again_hist = true /\ safe_class ex_ifs again_hist = true /\ fresh_channels again_hist = true
+  /\ map (fun o => (existsb is_resolved_evt o, existsb is_removed_evt o)) (run_history ex_ifs again_hist)
+     = [(false, false); (true, false); (false, false); (false, true); (true, false); (false, false); (false, false)]
+  /\ chk_C05 ex_ifs again_hist (ex_wakes again_hist) (map obs_of (run_history ex_ifs again_hist)) = true
+  /\ fresh_channels ex_hist = true /\ fresh_channels brexp_hist = true /\ fresh_channels ptrlast_hist = true.
+Proof. exact again_example. Qed.
+
 (* one witness per known class: the class predicate holds and the checker fails *)
 Theorem C05_known_ptr_variant_witness :
   known_ptr_variant (log_of_history ex_ifs ref5_hist) = true
@@ -197,6 +279,20 @@ Theorem C05_known_ptr_last_second_witness :
   /\ map (fun o => existsb is_removed_evt o) (run_history ex_ifs ptrlast_hist) = [false; false; false; false; true]
   /\ existsb is_dead_last_second (viol_C05 ex_ifs ptrlast_hist (ex_wakes ptrlast_hist) (map obs_of (run_history ex_ifs ptrlast_hist))) = true.
 Proof. exact ptr_last_second_witness. Qed.
+
+
+(* found by the timeliness analysis of round 5 (finding C05-stop-browse-drops-shared-records, the
+   daemon agrees): stop_browse of the subtype drops the SRV / TXT / address records of an
+   instance that is still browsed under its type; no ServiceRemoved on that channel, and a silent
+   departure is then reported only when the PTR runs out (4500 s instead of 120 s) *)
+Theorem C05_known_stop_second_name_witness :
+  wf_history stopname_hist = true /\ safe_class ex_ifs stopname_hist = true /\ fresh_channels stopname_hist = true
+  /\ known_stop_second_name ex_ifs stopname_hist = true
+  /\ existsb (existsb is_removed_evt) (run_history ex_ifs stopname_hist) = false
+  /\ existsb is_dead_no_srv (viol_C05 ex_ifs stopname_hist (ex_wakes stopname_hist)
+                                      (map obs_of (run_history ex_ifs stopname_hist))) = true
+  /\ known_stop_second_name ex_ifs twonames_hist = false /\ known_stop_second_name ex_ifs again_hist = false.
+Proof. exact stop_second_name_witness. Qed.
 
 (* The history-level statement is false of the faithful model: the PTR is delivered a second
    time with the cache-flush bit and TTL 2 s; ServiceRemoved at +2 s although the first PTR, the
@@ -247,9 +343,17 @@ Print Assumptions C05_spec_cache_is_model_cache.
 Print Assumptions C05_removed_only_when_true_partial.
 Print Assumptions C05_iteration_removed_only_when_true.
 Print Assumptions C05_safe_class_example.
+Print Assumptions C05_no_resolved_again_partial.
+Print Assumptions C05_iteration_no_resolved_again.
+Print Assumptions C05_liveness_decreases_with_cache.
+Print Assumptions C05_liveness_decreases_with_time.
+Print Assumptions C05_other_deliveries_keep_dead.
+Print Assumptions C05_resolved_is_strongly_alive.
+Print Assumptions C05_no_resolved_again_example.
 Print Assumptions C05_known_ptr_variant_witness.
 Print Assumptions C05_known_srv_targets_witness.
 Print Assumptions C05_known_ptr_last_second_witness.
+Print Assumptions C05_known_stop_second_name_witness.
 Print Assumptions C05_removed_on_time_refuted.
 Print Assumptions C05_example.
 Print Assumptions C05_example_two_names.
